@@ -439,17 +439,19 @@ class Exec(Core):
         return out
 
     def find_class(self, name):
-        for m in list(self.repo.modules.values()):
-            c = m.get_class(name)
-            if c is not None:
-                return c
-        for modname in ('pywbem._exceptions', 'pywbem._cim_types', 'pywbem._cim_obj'):
+        cache = getattr(self, '_find_class_cache', None)
+        if cache is None:
+            cache = self._find_class_cache = {}
+        if name in cache:
+            return cache[name]
+        res = None
+        modname = self.repo.class_index().get(name)
+        if modname is not None:
             m = self.repo.module(modname)
             if m is not None:
-                c = m.get_class(name)
-                if c is not None:
-                    return c
-        return None
+                res = m.get_class(name)
+        cache[name] = res
+        return res
 
     def is_subclass_name(self, clsname, target):
         return target in self.class_names(clsname) or target == 'object'
